@@ -134,6 +134,7 @@ func c02DBBuild(db c02DB, max int) (*c02Model, bool) {
 // keeps [Committed, LEO] ∋ KeepThrough, never lowers the watermark, leaves the kept prefix untouched
 // and leaves nothing above KeepThrough but the replacement; every refused one changes nothing.
 func Harness_C02_MessageDBReplace() {
+	c02NoShapes = true
 	db, ok := c02OpenDB()
 	zzsym.Assert(ok, "MessageDB store could not be opened on the in-memory engine")
 	if !ok {
